@@ -22,6 +22,9 @@ type mObj struct {
 	Fields map[string]string // name -> data; zero values are absent
 	Dead   bool              // has a deadline
 	TTL    float64           // seconds given at the time it was set (informational)
+	// Zombie: past its deadline but possibly not swept yet (the sweeper runs every
+	// 200 ms); only used to keep such states apart when deduplicating histories.
+	Zombie bool
 }
 
 func (o *mObj) clone() *mObj {
@@ -89,6 +92,9 @@ func (s *mState) canon() string {
 			d := "-"
 			if o.Dead {
 				d = "T"
+			}
+			if o.Zombie {
+				d = "Z"
 			}
 			fmt.Fprintf(&sb, "%s=%s|%s|%s;", id, o.Val, o.fieldsStr(), d)
 		}
@@ -638,6 +644,10 @@ func mApply(s *mState, a []string) string {
 		for _, k := range sortedKeys(s.Cols) {
 			for _, id := range sortedKeys(s.Cols[k]) {
 				if o := s.Cols[k][id]; o.Dead && o.TTL <= 0 {
+					if !s.Timed && o.TTL > -0.4 {
+						o.Zombie = true // inside the sweeper's window: may or may not be gone
+						continue
+					}
 					s.Expired = append(s.Expired, k+" "+id)
 					s.del(k, id)
 				}
